@@ -7,7 +7,7 @@ the script only through edit_list / edits().
 import ast
 
 from .. import e1
-from ..astx import self_attr, walk_no_nested, dotted, call_name, parent
+from ..astx import self_attr, walk_no_nested, dotted, call_name, parent, resolve_local
 from ..core import norm
 from .. import pat
 
@@ -276,6 +276,8 @@ def r03d(ctx):
                     for w in lst[:lst.index(walk)]:
                         if isinstance(w, ast.While) and not any(isinstance(b, ast.Break) for b in ast.walk(w)):
                             t = ast.unparse(w.test).replace(" ", "")
+                            if isinstance(w.test, ast.Call) and isinstance(w.test.func, ast.Attribute) and isinstance(w.test.func.value, ast.Name):
+                                t = ast.unparse(resolve_local(ed.node, w.test.func.value)).replace(" ", "") + ".tighten_bounds()"
                             if t in (f"self.edit_matrix[{r}][{cc}].tighten_bounds()", "self.edit_matrix[-1][-1].tighten_bounds()"):
                                 ok = f"`while {norm(w.test, 60)}` runs to exhaustion right before the walk back from the bottom-right cell"
         if ok is None:
